@@ -1,3 +1,3 @@
 #!/bin/sh
-# regenerate CelloGen from /repo (a seed evaluation may have left it generated from a scratch tree), then commit everything
-cd "$(dirname "$0")/.." && python3 translate/gen.py >/dev/null 2>&1; git add -A && git commit -qm "$1" && git log --oneline | head -1
+# regenerate CelloGen from /repo under the lake lock (a seed evaluation may have left it generated from a scratch tree), then commit everything
+cd "$(dirname "$0")/.." && mkdir -p .cache && flock .cache/lake.lock python3 translate/gen.py >/dev/null 2>&1; git add -A && git commit -qm "$1" && git log --oneline | head -1
